@@ -117,38 +117,39 @@ static int stub_submit(thread_pool_t *pool, void *ptr)
 	return -1;
 }
 
-/* call sites of the two translation units that this scenario never reaches */
-static void stub_unreach_destroy(sqfs_object_t *o)
+/* call sites of the translation unit that this scenario never reaches
+ * (external linkage, so that the symbols exist even while nothing calls them) */
+void stub_unreach_destroy(sqfs_object_t *o)
 {
 	(void)o;
 	VERIF_ASSERT(0, "C09.bp.unreachable");
 }
-static sqfs_object_t *stub_unreach_copy(const sqfs_object_t *o)
+sqfs_object_t *stub_unreach_copy(const sqfs_object_t *o)
 {
 	(void)o;
 	VERIF_ASSERT(0, "C09.bp.unreachable");
 	return NULL;
 }
-static int stub_unreach_read_at(sqfs_file_t *f, sqfs_u64 off, void *buf, size_t n)
+int stub_unreach_read_at(sqfs_file_t *f, sqfs_u64 off, void *buf, size_t n)
 {
 	(void)f; (void)off; (void)buf; (void)n;
 	VERIF_ASSERT(0, "C09.bp.unreachable");
 	return -1;
 }
-static sqfs_s32 stub_unreach_do_block(sqfs_compressor_t *c, const sqfs_u8 *in,
+sqfs_s32 stub_unreach_do_block(sqfs_compressor_t *c, const sqfs_u8 *in,
 				      sqfs_u32 n, sqfs_u8 *out, sqfs_u32 m)
 {
 	(void)c; (void)in; (void)n; (void)out; (void)m;
 	VERIF_ASSERT(0, "C09.bp.unreachable");
 	return -1;
 }
-static size_t stub_unreach_get_worker_count(thread_pool_t *p)
+size_t stub_unreach_get_worker_count(thread_pool_t *p)
 {
 	(void)p;
 	VERIF_ASSERT(0, "C09.bp.unreachable");
 	return 1;
 }
-static void stub_unreach_set_worker_ptr(thread_pool_t *p, size_t i, void *u)
+void stub_unreach_set_worker_ptr(thread_pool_t *p, size_t i, void *u)
 {
 	(void)p; (void)i; (void)u;
 	VERIF_ASSERT(0, "C09.bp.unreachable");
